@@ -18,6 +18,8 @@ def _symrun():
 def _floaty(dtype):
     if dtype is None:
         return True
+    if getattr(dtype, '__name__', '') == 'sx_float':
+        return True
     try:
         return np.issubdtype(np.dtype(dtype), np.floating)
     except TypeError:
@@ -128,6 +130,19 @@ class NumpyShim:
 
     def ascontiguousarray(self, obj, dtype=None):
         return self.asarray(obj, dtype)
+
+    def fromstring(self, string, dtype=float, count=-1, sep=''):
+        if _floaty(dtype):
+            dtype = float
+        a = np.fromstring(string, dtype=dtype, count=count, sep=sep)
+        from . import rt
+        if rt.FLOAT_TOKENS and a.dtype.kind == 'f':
+            if any(float(v) in rt.FLOAT_TOKENS for v in a.ravel()):
+                o = np.empty(a.shape, dtype=object)
+                for idx, v in np.ndenumerate(a):
+                    o[idx] = rt.FLOAT_TOKENS.get(float(v), float(v))
+                return o
+        return a
 
     def gradient(self, f, *varargs, axis=None, edge_order=1):
         """numpy.gradient for unit spacing (numpy's own formulae: central differences inside, first / second order one-sided at the
